@@ -671,6 +671,25 @@ func init() {
 			r.Fail(name+":wrong-decision", "pk=%x err=%v want-accept=%v", a[0], err, want)
 			return
 		}
+		{
+			// the zero value of the exported struct (what a caller holds who ignored the constructor's error, or a
+			// struct field never filled in): every option set must get "false" - the documented panics are those of
+			// the options / message length only
+			zopts, zmust, zmay := c19Options(c.N, a[1])
+			if zopts.Hash == crypto.SHA512 && len(a[1]) != 64 {
+				zmust = true
+			}
+			zmay, zmust = zmay || zmust, false // refusing the key before looking at the options is as good as the panic
+			var zok bool
+			zp, zv := h.Catch(func() { zok = ed25519.VerifyExpandedWithOptions(&ed25519.ExpandedPublicKey{}, a[1], a[2], zopts) })
+			c19JudgePanic(r, "ed25519.VerifyExpandedWithOptions(zero-value-key)", zp, zv, zok, zmust, zmay, fmt.Sprintf("opt=%d", c.N))
+			if !zp && zok {
+				r.Fail("ed25519.VerifyExpandedWithOptions(zero-value-key):accepted", "sig=%x opt=%d", a[2], c.N)
+			}
+			if r.Failed() {
+				return
+			}
+		}
 		if err != nil {
 			return
 		}
